@@ -37,6 +37,30 @@ def _ret_tuple(fn):
     for n in walk_no_nested(fn):
         if isinstance(n, ast.Return) and isinstance(n.value, ast.Call) and n.value.args and isinstance(n.value.args[0], (ast.List, ast.Tuple)):
             return n
+    # np.array(extents + tilts) with the pieces in single-definition locals: fold the list expression
+    for n in walk_no_nested(fn):
+        if isinstance(n, ast.Return) and isinstance(n.value, ast.Call) and n.value.args:
+            elts = _fold_list(fn, n.value.args[0])
+            if elts is not None:
+                n2 = ast.Return(value=ast.Call(func=n.value.func, args=[ast.List(elts=elts, ctx=ast.Load())] + list(n.value.args[1:]), keywords=n.value.keywords))
+                ast.copy_location(n2, n)
+                ast.fix_missing_locations(n2)
+                n2._orig = n
+                return n2
+    return None
+
+
+def _fold_list(fn, e, depth=0):
+    if depth > 4:
+        return None
+    if isinstance(e, (ast.List, ast.Tuple)):
+        return list(e.elts)
+    if isinstance(e, ast.Name):
+        ds = local_defs(fn).get(e.id, [])
+        return _fold_list(fn, ds[0], depth + 1) if len(ds) == 1 and ds[0] is not None else None
+    if isinstance(e, ast.BinOp) and isinstance(e.op, ast.Add):
+        a, b = _fold_list(fn, e.left, depth + 1), _fold_list(fn, e.right, depth + 1)
+        return a + b if a is not None and b is not None else None
     return None
 
 
@@ -126,9 +150,10 @@ def check(ctx):
     if ret is None:
         raise AnalysisError("lengths_and_angles_to_tilt_factors: return not recognised")
     els = ret.value.args[0].elts
-    rn = cfg.node_of[ret]
+    rn = cfg.node_of[getattr(ret, "_orig", ret)]
     labs = ("lx", "ly", "lz", "xy", "xz", "yz")
-    ctx.decide([dotted(e) for e in els] == list(labs), "C17-R3", ret, UC, "lengths_and_angles_to_tilt_factors", "return order (lx, ly, lz, xy, xz, yz)", "", "return order changed")
+    # the order of the six numbers is decided by value (C17-R7: each equals the corresponding box-vector component); here only their count
+    ctx.decide(len(els) == 6, "C17-R3", getattr(ret, "_orig", ret), UC, "lengths_and_angles_to_tilt_factors", "six numbers returned (lx, ly, lz, xy, xz, yz; order decided by value, C17-R7)", "", "%d values are returned" % len(els))
     outs = [(lab, e, rn, defs, ps) for lab, e in zip(labs, els)]
     _check_deps(ctx, UC, "lengths_and_angles_to_tilt_factors", fn, outs,
                 {"lx": {"a_length"}, "xy": {"b_length", "gamma"}, "xz": {"c_length", "beta"}, "ly": {"b_length", "gamma"},
@@ -551,11 +576,16 @@ def r7_gram(ctx):
     # ---- LAMMPS tilt factors: the writer's six numbers, the free function, and the reader's inverse
     tf = ctx.py.func(UC, "lengths_and_angles_to_tilt_factors")
     try:
-        pt = PySym().run(tf.body)
+        from ..tensym import TenSym as _TS, Ten as _Ten
+        pt = _TS(funcs={q_: f_ for q_, f_ in ctx.py.mod(UC).functions.items() if "." not in q_ and q_ != "lengths_and_angles_to_tilt_factors"})
+        t = pt.run_fn(tf, **{k: _sym(k) for k in ("a_length", "b_length", "c_length", "alpha", "beta", "gamma")})
+        t = list(t.data) if isinstance(t, _Ten) and t.shape == (6,) else (list(t) if isinstance(t, (list, tuple)) and len(t) == 6 else None)
     except Unsupported as e:
         ctx.undecided("C17-R7", tf, UC, "lengths_and_angles_to_tilt_factors", "tilt factors", "not evaluable: %s" % e)
         return
-    t = pt.returned
+    if t is None:
+        ctx.undecided("C17-R7", tf, UC, "lengths_and_angles_to_tilt_factors", "tilt factors", "the function does not return six numbers")
+        return
     names = ["lx", "ly", "lz", "xy", "xz", "yz"]
     # definition through the box vectors of the first function: lx = a_x, ly = b_y, lz = c_z, xy = b_x, xz = c_x, yz = c_y
     want = [a[0], b[1], c[2], b[0], c[0], c[1]]
